@@ -39,6 +39,7 @@ def remote_part(viol, obs):
     from pyworkers.remote_server import spawn_server
     server = spawn_server(('127.0.0.1', 0))
     try:
+        in_place(viol, obs, {'remote': lambda *a, **k: RemoteWorker(*a, host=server.addr, **k)})
         for init, values in (('initial', [5, None]), (1, [2, 0]), (None, [3, ['a', 'b']]), ('same', ['x', 'same'])):
             for then in ('return', 'return_none', 'return_false', 'raise', 'raise_unreceivable'):
                 w = RemoteWorker(T.set_states, args=(values, then), init_state=init, host=server.addr)
@@ -64,7 +65,24 @@ def remote_part(viol, obs):
             pass
 
 
+def in_place(viol, obs, kinds):
+    """a mutable state updated in place: the LAST VALUE ASSIGNED is the same object the child started with, with new content"""
+    for kname, mk in kinds.items():
+        for then in ('return', 'raise'):
+            w = mk(T.update_state_in_place, args=(3, then), init_state={'count': 0, 'log': []})
+            if not w.wait(20):
+                viol.append(f'{kname}/in-place/{then}: wait(20) returned False')
+                w.terminate(timeout=1)
+                continue
+            got = w.user_state
+            obs[f'{kname}/in-place/{then}'] = got
+            if got != {'count': 3, 'log': [0, 1, 2]}:
+                viol.append(f"{kname} worker, init_state={{'count': 0, 'log': []}} updated in place three times by the child (ending by {then}): after the end the parent's "
+                            f"user_state is {got!r}, the child's last value was {{'count': 3, 'log': [0, 1, 2]}}")
+
+
 def process_part(viol, obs):
+    in_place(viol, obs, {'process': lambda *a, **k: ProcessWorker(*a, **k)})
     w = ProcessWorker(T.set_state_and_return, args=(41,), init_state='initial')
     obs['alive_state'] = w.user_state
     ok = w.wait(20)
